@@ -151,7 +151,10 @@ class Arbiter:
             elif self.master_pid:
                 fds = []
                 for fd in os.environ.pop('GUNICORN_FD').split(','):
-                    fds.append(int(fd))
+                    # the list is empty when the old master holds no
+                    # listener itself (reuse_port: the workers bind)
+                    if fd:
+                        fds.append(int(fd))
 
             if not (self.cfg.reuse_port and hasattr(socket, 'SO_REUSEPORT')):
                 self.LISTENERS = sock.create_sockets(self.cfg, self.log, fds)
